@@ -393,6 +393,12 @@ def run(ctx, report):
                       'registers of the address (shared as C01.D12)', floor=40)
     segment_render_rule(ctx, R13)
 
+    # ---------------------------------------------------------------- D14 boundary displacements and immediates are offered back (shared with C02.D2 / C03.D6)
+    R14 = report.rule('C09.D14', 'a rendering whose displacement or immediate lies on the edge of the one-byte range assembles back to the one-byte form it was decoded from '
+                      '(range table of check_imm_size; ad_to_generic evaluated on boundary displacements)', floor=20)
+    from .c02 import range_rule
+    range_rule(ctx, R14)
+
     # ---------------------------------------------------------------- D11 both renderings come from one object
     R11 = report.rule('C09.D11', 'rendering does not change the instruction: the Intel and the AT&T rendering of one decoded object describe the same instruction (shared with C12.D11)', floor=4)
     from .c12 import readonly_methods_rule
